@@ -430,4 +430,701 @@ Section Selections.
       + intros ts1 ts2 H1 (cl & -> & Hk). exists ts1, cl. auto.
     - intros tok ts Hk (body & cl & -> & Hcl & HD). exists tok, body, cl. auto.
   Qed.
+
+  Lemma name_then nn X (PX : list ptok -> Prop) :
+    valid_name nn -> LexOK X PX -> (forall rest, vrest_ok rest -> vrest_ok (X ++ rest)) ->
+    LexOK (nn ++ X) (fun ts => exists n xs, ts = n :: xs /\ tk n = KName /\ tval n = nn /\ PX xs).
+  Proof.
+    intros Hn HX Hv.
+    apply (lexok_app nn X (fun ts => exists n, ts = [n] /\ tk n = KName /\ tval n = nn) PX);
+      [|assumption|assumption|].
+    - apply name_lexok; [assumption|]. intros t Hk Ht. exists t. auto.
+    - intros ts1 ts2 (n & -> & Hk & Ht) H2. exists n, ts2. auto.
+  Qed.
+
+  Lemma wf_sub_forall sub :
+    (fix all (l : list selection) : Prop :=
+       match l with [] => True | x :: l' => wf_sel x /\ all l' end) sub -> Forall wf_sel sub.
+  Proof. induction sub as [|x sub IH]; intros H; constructor; [tauto|apply IH; tauto]. Qed.
+
+  Definition Qlead (al : option name) (nm : name) (args : list argument) (ts : list ptok) : Prop :=
+    exists ats n argts, ts = ats ++ n :: argts /\ D_alias true ats (option_map strip_name al)
+      /\ tk n = KName /\ tval n = n_val nm /\ D_arguments true false argts (map strip_arg args).
+
+  Lemma lead_lexok al nm args pre :
+    match al with Some a => valid_name (n_val a) | None => True end -> valid_name (n_val nm) ->
+    Forall (wf_arg false) args -> all_ws pre ->
+    LexOK (reindent pre
+             (p_join [match al with
+                      | Some a => p_join [p_wrap [] (n_val a) (lit ": "); n_val nm] []
+                      | None => n_val nm
+                      end; pr_arguments cf args] []))
+          (Qlead al nm args).
+  Proof.
+    intros Hal Hn Hargs Hpre.
+    pose proof (args_lexp cf Hind false args Hargs pre Hpre) as HA.
+    assert (HAv : forall rest, vrest_ok rest -> vrest_ok (reindent pre (pr_arguments cf args) ++ rest)).
+    { intros rest Hr. apply reindent_head_ok; [apply args_head_ok|assumption]. }
+    rewrite p_join_nil_sep. cbn [concat]. rewrite app_nil_r, reindent_app.
+    destruct al as [a|].
+    - rewrite p_join_nil_sep. cbn [concat]. rewrite app_nil_r.
+      rewrite p_wrap_nonempty by (apply valid_name_ne; assumption). cbn [app].
+      rewrite !reindent_app, (reindent_id pre _ (name_no_lf _ Hal)), (reindent_id pre _ (name_no_lf _ Hn)).
+      change (reindent pre (lit ": ")) with (lit ": "). rewrite <- !app_assoc.
+      apply (named_lexok (n_val a) (n_val nm ++ reindent pre (pr_arguments cf args))
+               (fun ts => exists n xs, ts = n :: xs /\ tk n = KName /\ tval n = n_val nm
+                                       /\ D_arguments true false xs (map strip_arg args))).
+      + assumption.
+      + apply name_then; assumption.
+      + intros t colon ts Hk Ht Hc (n & xs & -> & Hkn & Htn & HD).
+        exists [t; colon], n, xs. split; [reflexivity|]. split; [|auto].
+        pose proof (DAl_some true t colon Hk Hc) as D. unfold name_node in D. rewrite Ht in D. exact D.
+    - rewrite (reindent_id pre _ (name_no_lf _ Hn)).
+      apply (lexok_weaken _ (fun ts => exists n xs, ts = n :: xs /\ tk n = KName /\ tval n = n_val nm
+                                       /\ D_arguments true false xs (map strip_arg args))).
+      + intros ts (n & xs & -> & Hkn & Htn & HD). exists [], n, xs. split; [reflexivity|].
+        split; [constructor|auto].
+      + apply name_then; assumption.
+  Qed.
+
+  Lemma PS_field al nm args dirs sl sub l : Forall PS sub -> PS (SField al nm args dirs sl sub l).
+  Proof.
+    intros HPS (Hal & Hn & Hargs & Hdirs & Hsl & Hsub). apply wf_sub_forall in Hsub.
+    cbn [pr_selection strip_sel]. fold (pr_selection_set cf sub).
+    split.
+    - rewrite p_join_cons.
+      assert (E : is_empty (p_join [match al with
+                      | Some a => p_join [p_wrap [] (n_val a) (lit ": "); n_val nm] []
+                      | None => n_val nm end; pr_arguments cf args] []) = false).
+      { rewrite p_join_nil_sep. cbn [concat]. pose proof (valid_name_ne _ Hn) as Hnn.
+        destruct al as [a|].
+        - rewrite p_join_nil_sep. cbn [concat]. rewrite p_wrap_nonempty by (apply valid_name_ne; assumption).
+          pose proof (valid_name_ne _ Hal). destruct (n_val a); [contradiction|reflexivity].
+        - destruct (n_val nm); [contradiction|reflexivity]. }
+      rewrite E. clear Hal Hn.
+      match goal with |- (if ?b then ?x else _) <> [] => destruct b; destruct x; try discriminate end.
+    - intros pre Hpre. rewrite reindent_p_join. cbn [map]. change (reindent pre (lit " ")) with (lit " ").
+      set (A := reindent pre (p_join [match al with
+                      | Some a => p_join [p_wrap [] (n_val a) (lit ": "); n_val nm] []
+                      | None => n_val nm end; pr_arguments cf args] [])).
+      set (Dt := reindent pre (pr_directives cf dirs)).
+      set (St := reindent pre (match sl with Some _ => pr_selection_set cf sub | None => [] end)).
+      set (Q3 := fun ts => D_opt_selection_set true ts (option_map (fun _ : loc => @None (nat * nat)) sl)
+                                                (map strip_sel sub)).
+      apply (lexok_weaken _ (PartsP [(A, Qlead al nm args);
+                                     (Dt, fun ts => D_directives true false ts (map strip_dir dirs));
+                                     (St, Q3)])).
+      + intros ts H. inversion H as [|? ? ts1 ? tss1 H1 Hr1]; subst.
+        inversion Hr1 as [|? ? ts2 ? tss2 H2 Hr2]; subst.
+        inversion Hr2 as [|? ? ts3 ? tss3 H3 Hr3]; subst. inversion Hr3; subst.
+        destruct H1 as (ats & n & argts & -> & HDa & Hkn & Htn & HDargs). unfold Q3 in H3.
+        pose proof (DS_field true ats _ n argts _ ts2 _ ts3 _ _ HDa Hkn HDargs H2 H3) as D.
+        unfold name_node in D. rewrite Htn in D.
+        rewrite app_nil_r. rewrite <- !app_assoc. cbn [app]. exact D.
+      + change [A; Dt; St] with (map fst [(A, Qlead al nm args);
+                                     (Dt, fun ts => D_directives true false ts (map strip_dir dirs));
+                                     (St, Q3)]).
+        apply lex_pjoin; [apply ignorable_space|discriminate|].
+        repeat constructor; cbn [fst snd].
+        * apply lead_lexok; assumption.
+        * apply (dirs_lexp cf Hind false dirs Hdirs pre Hpre).
+        * unfold St, Q3. destruct sl as [sl0|].
+          -- apply (lexok_weaken _ (fun ts => exists o body cl, ts = o :: body ++ [cl] /\ tk o = KCurlyO
+                       /\ tk cl = KCurlyC /\ D_selections true body (map strip_sel sub))).
+             ++ intros ts (o & body & cl & -> & Ho & Hc & HD). cbn [option_map].
+                apply (DOS_some true o body cl _ Ho Hc HD). destruct sub; [contradiction|discriminate].
+             ++ apply selset_lexp; assumption.
+          -- subst sub. simpl. apply lexok_nil. constructor.
+  Qed.
+
+
+  Lemma PS_spread nm dirs l : PS (SSpread nm dirs l).
+  Proof.
+    intros (Hn & Hon & Hdirs). cbn [pr_selection strip_sel]. split; [discriminate|].
+    intros pre Hpre. rewrite !reindent_app, reindent_p_wrap.
+    change (reindent pre (lit "...")) with (lit "..."). change (reindent pre (lit " ")) with (lit " ").
+    change (reindent pre []) with (@nil N). rewrite (reindent_id pre _ (name_no_lf _ Hn)).
+    pose proof (dirs_lexp cf Hind false dirs Hdirs pre Hpre) as HD.
+    set (Dt := reindent pre (pr_directives cf dirs)) in *.
+    apply (lexok_ellipsis_app _
+             (fun ts => exists n xs, ts = n :: xs /\ tk n = KName /\ tval n = n_val nm
+                                     /\ D_directives true false xs (map strip_dir dirs))).
+    - apply name_then; [assumption| |].
+      + unfold p_wrap. destruct (is_empty Dt) eqn:E.
+        * destruct Dt; [|discriminate]. apply lexok_nil. apply (lexok_empty_tokens _ HD).
+        * rewrite app_nil_r. apply lexok_lead; [apply ignorable_space|assumption].
+      + intros rest Hr. unfold p_wrap. destruct (is_empty Dt); [assumption|].
+        rewrite <- !app_assoc. apply vrest_sym. auto.
+    - intros tok ts Hk (n & xs & -> & Hkn & Htn & HDs).
+      pose proof (DS_spread true tok n xs (map strip_dir dirs) Hk Hkn) as D.
+      unfold name_node in D. rewrite Htn in D. apply D; assumption.
+  Qed.
+
+  Lemma PS_inline tc dirs ssl sub l : Forall PS sub -> PS (SInline tc dirs ssl sub l).
+  Proof.
+    intros HPS (Htc & Hdirs & Hne & Hsub). apply wf_sub_forall in Hsub.
+    cbn [pr_selection strip_sel]. fold (pr_selection_set cf sub). split.
+    - rewrite p_join_cons. cbn [is_empty lit str_of_string].
+      match goal with |- (if ?b then ?x else _) <> [] => destruct b; discriminate end.
+    - intros pre Hpre. rewrite reindent_p_join. cbn [map]. change (reindent pre (lit " ")) with (lit " ").
+      change (reindent pre (lit "...")) with (lit "...").
+      set (Tt := reindent pre (p_wrap (lit "on ") match tc with Some t => pr_type t | None => [] end [])).
+      set (Dt := reindent pre (pr_directives cf dirs)).
+      set (St := reindent pre (pr_selection_set cf sub)).
+      set (QS := fun ts => exists o body cl, ts = o :: body ++ [cl] /\ tk o = KCurlyO
+                       /\ tk cl = KCurlyC /\ D_selections true body (map strip_sel sub)).
+      apply (lexok_weaken _ (PartsP [(lit "...", fun ts => exists e, ts = [e] /\ tk e = KEllip);
+                                     (Tt, fun ts => D_type_condition true ts (option_map strip_ty tc));
+                                     (Dt, fun ts => D_directives true false ts (map strip_dir dirs));
+                                     (St, QS)])).
+      + intros ts H. inversion H as [|? ? ts1 ? tss1 H1 Hr1]; subst.
+        inversion Hr1 as [|? ? ts2 ? tss2 H2 Hr2]; subst.
+        inversion Hr2 as [|? ? ts3 ? tss3 H3 Hr3]; subst.
+        inversion Hr3 as [|? ? ts4 ? tss4 H4 Hr4]; subst. inversion Hr4; subst.
+        destruct H1 as (e & -> & Hke). destruct H4 as (o & body & cl & -> & Ho & Hc & HD).
+        pose proof (DS_inline true e ts2 _ ts3 _ o body cl _ Hke H2 H3 Ho Hc HD) as D.
+        rewrite app_nil_r. cbn [app]. apply D. destruct sub; [contradiction|discriminate].
+      + change [lit "..."; Tt; Dt; St]
+          with (map fst [(lit "...", fun ts : list ptok => exists e, ts = [e] /\ tk e = KEllip);
+                         (Tt, fun ts => D_type_condition true ts (option_map strip_ty tc));
+                         (Dt, fun ts => D_directives true false ts (map strip_dir dirs));
+                         (St, QS)]).
+        apply lex_pjoin; [apply ignorable_space|discriminate|].
+        repeat constructor; cbn [fst snd].
+        * rewrite <- (app_nil_r (lit "...")). apply (lexok_ellipsis_app [] (fun ts => ts = [])).
+          -- apply lexok_nil. reflexivity.
+          -- intros tok ts Hk ->. exists tok. auto.
+        * unfold Tt. destruct tc as [[n ln|t0 l0|t0 l0]|]; try contradiction.
+          -- cbn [pr_type option_map strip_ty]. rewrite p_wrap_nonempty by (apply valid_name_ne; assumption).
+             rewrite app_nil_r, reindent_app, (reindent_id pre _ (name_no_lf _ Htc)).
+             change (reindent pre (lit "on ")) with (lit "on" ++ lit " "). rewrite <- app_assoc.
+             apply (lexok_app (lit "on") (lit " " ++ n_val n)
+                      (fun ts => exists o, ts = [o] /\ tk o = KName /\ tval o = lit "on")
+                      (fun ts => exists t, ts = [t] /\ tk t = KName /\ tval t = n_val n)).
+             ++ apply name_lexok; [apply valid_name_on|]. intros t Hk Ht. exists t. auto.
+             ++ apply lexok_lead; [apply ignorable_space|].
+                apply name_lexok; [assumption|]. intros t Hk Ht. exists t. auto.
+             ++ intros rest _. apply vrest_sym. auto.
+             ++ intros ts1 ts2 (o & -> & Hko & Hto) (t & -> & Hkt & Htt).
+                pose proof (DTc_some true o t (conj Hko Hto) Hkt) as D.
+                unfold name_node in D. rewrite Htt in D. exact D.
+          -- simpl. apply lexok_nil. constructor.
+        * apply (dirs_lexp cf Hind false dirs Hdirs pre Hpre).
+        * apply selset_lexp; assumption.
+  Qed.
+
+  Theorem PS_all s : PS s.
+  Proof.
+    induction s using selection_ind'.
+    - apply PS_field; assumption.
+    - apply PS_spread.
+    - apply PS_inline; assumption.
+  Qed.
+
 End Selections.
+
+(* ------------------------------------------------------------------ types and variable definitions *)
+Lemma ttoks_length t : forall pos, length (ttoks t pos) = ntoks t.
+Proof.
+  induction t as [n l|t' IH l|t' IH l]; intros pos; simpl; [reflexivity| |].
+  - rewrite app_length, IH. simpl. lia.
+  - rewrite app_length, IH. simpl. lia.
+Qed.
+
+Lemma type_lexok t : wf_ty t -> LexOK (pr_type t) (fun ts => D_type true ts (strip_ty t)).
+Proof.
+  intros Hwf rest pos Hr. exists (ttoks t pos), (pos + length (pr_type t))%nat.
+  split; [apply ttoks_derive; assumption|]. split; [rewrite ttoks_length; apply ntoks_le; assumption|].
+  intros f. rewrite ttoks_length. apply lex_type; [assumption|apply vrest_rest_ok; assumption].
+Qed.
+
+Lemma type_no_lf t : wf_ty t -> no_lf (pr_type t).
+Proof.
+  induction t as [n l|t' IH l|t' IH l]; intros Hwf.
+  - apply name_no_lf. assumption.
+  - cbn [pr_type]. change (lit "[") with [91]. change (lit "]") with [93].
+    intros x Hx. apply in_app_or in Hx. destruct Hx as [[<-|[]]|Hx]; [discriminate|].
+    apply in_app_or in Hx. destruct Hx as [Hx|[<-|[]]]; [apply (IH Hwf x Hx)|discriminate].
+  - destruct Hwf as [Hwf _]. cbn [pr_type]. change (lit "!") with [33].
+    intros x Hx. apply in_app_or in Hx. destruct Hx as [Hx|[<-|[]]]; [apply (IH Hwf x Hx)|discriminate].
+Qed.
+
+Section VarDefs.
+  Variable cf : cfg.
+  Hypothesis Hind : all_ws (c_indent cf).
+
+  Definition wf_vardef (v : var_def) : Prop :=
+    valid_name (n_val (vd_var v)) /\ wf_ty (vd_type v)
+    /\ match vd_default v with Some d => wf_value true d | None => True end
+    /\ Forall (wf_dir true) (vd_dirs v).
+
+  Lemma default_lexp (dv : option value) :
+    match dv with Some d => wf_value true d | None => True end ->
+    LexP (p_wrap (lit " = ") (match dv with Some d => pr_value cf d | None => [] end) [])
+         (fun ts => D_default true ts (option_map strip_value dv)).
+  Proof.
+    intros Hwf pre Hpre. destruct dv as [d|].
+    - destruct (PV_all cf Hind true d Hwf) as [Hne HL].
+      rewrite p_wrap_nonempty by assumption. rewrite app_nil_r, reindent_app.
+      change (reindent pre (lit " = ")) with ([32] ++ 61 :: [32]). rewrite <- app_assoc. cbn [app].
+      change (32 :: 61 :: 32 :: ?x) with ([32] ++ 61 :: ([32] ++ x)).
+      apply lexok_lead; [repeat constructor|].
+      apply (lexok_symbol_app 61 KEquals _ (fun ts => D_value true true ts (strip_value d)));
+        [reflexivity|discriminate| |].
+      + apply lexok_lead; [repeat constructor|]. apply HL. assumption.
+      + intros tok ts Hk HD. cbn [option_map]. constructor; assumption.
+    - simpl. apply lexok_nil. constructor.
+  Qed.
+
+  Lemma default_head_ok pre (dv : option value) rest : vrest_ok rest ->
+    vrest_ok (reindent pre (p_wrap (lit " = ") (match dv with Some d => pr_value cf d | None => [] end) []) ++ rest).
+  Proof.
+    intros Hr. apply reindent_head_ok; [|assumption]. intros r Hr0. unfold p_wrap.
+    destruct (is_empty _); [assumption|]. apply vrest_sym. auto.
+  Qed.
+
+  Lemma vardef_lexp v : wf_vardef v ->
+    pr_var_def cf v <> [] /\
+    LexP (pr_var_def cf v) (fun ts => D_variable_definition true ts (strip_var_def v)).
+  Proof.
+    intros (Hn & Hty & Hdef & Hdirs). unfold pr_var_def. change (lit "$") with [36]. split.
+    - rewrite p_join_cons. cbn [is_empty app].
+      match goal with |- (if ?b then ?x else _) <> [] => destruct b; discriminate end.
+    - intros pre Hpre. rewrite reindent_p_join. cbn [map]. change (reindent pre (lit " ")) with (lit " ").
+      set (Q1 := fun ts => exists d n colon tyts defts, ts = d :: n :: colon :: tyts ++ defts
+                  /\ tk d = KDollar /\ tk n = KName /\ tval n = n_val (vd_var v) /\ tk colon = KColon
+                  /\ D_type true tyts (strip_ty (vd_type v))
+                  /\ D_default true defts (option_map strip_value (vd_default v))).
+      set (A := reindent pre (([36] ++ n_val (vd_var v)) ++ lit ": " ++ pr_type (vd_type v) ++
+                 p_wrap (lit " = ") match vd_default v with Some d => pr_value cf d | None => [] end [])).
+      set (Dt := reindent pre (pr_directives cf (vd_dirs v))).
+      apply (lexok_weaken _ (PartsP [(A, Q1);
+                (Dt, fun ts => D_directives true true ts (map strip_dir (vd_dirs v)))])).
+      + intros ts H. inversion H as [|? ? ts1 ? tss1 H1 Hr1]; subst.
+        inversion Hr1 as [|? ? ts2 ? tss2 H2 Hr2]; subst. inversion Hr2; subst.
+        destruct H1 as (d & n & colon & tyts & defts & -> & Hkd & Hkn & Htn & Hkc & HDt & HDd).
+        pose proof (DVd true d n colon tyts _ defts _ ts2 _ Hkd Hkn Hkc HDt HDd H2) as D.
+        unfold name_node in D. rewrite Htn in D. rewrite app_nil_r.
+        cbn [app]. rewrite <- app_assoc. exact D.
+      + change [A; Dt] with (map fst [(A, Q1);
+                (Dt, fun ts => D_directives true true ts (map strip_dir (vd_dirs v)))]).
+        apply lex_pjoin; [apply ignorable_space|discriminate|]. repeat constructor; cbn [fst snd].
+        * unfold A. rewrite <- !app_assoc. cbn [app]. rewrite !reindent_cons. cbn [app].
+          change (36 =? PrinterModel.LF) with false. cbn [app].
+          rewrite !reindent_app. rewrite (reindent_id pre _ (name_no_lf _ Hn)).
+          rewrite (reindent_id pre _ (type_no_lf _ Hty)). change (reindent pre (lit ": ")) with (lit ": ").
+          apply (lexok_symbol_app 36 KDollar _
+                   (fun ts => exists n colon tyts defts, ts = n :: colon :: tyts ++ defts
+                      /\ tk n = KName /\ tval n = n_val (vd_var v) /\ tk colon = KColon
+                      /\ D_type true tyts (strip_ty (vd_type v))
+                      /\ D_default true defts (option_map strip_value (vd_default v))));
+            [reflexivity|discriminate| |].
+          -- apply (named_lexok _ _ (fun ts => exists tyts defts, ts = tyts ++ defts
+                      /\ D_type true tyts (strip_ty (vd_type v))
+                      /\ D_default true defts (option_map strip_value (vd_default v)))).
+             ++ assumption.
+             ++ apply (lexok_app _ _ (fun ts => D_type true ts (strip_ty (vd_type v)))
+                         (fun ts => D_default true ts (option_map strip_value (vd_default v)))).
+                ** apply type_lexok. assumption.
+                ** apply default_lexp; assumption.
+                ** intros rest Hr. apply default_head_ok. assumption.
+                ** intros ts1 ts2 H1 H2. exists ts1, ts2. auto.
+             ++ intros t colon ts Hk Ht Hc (tyts & defts & -> & HDt & HDd).
+                exists t, colon, tyts, defts. auto 10.
+          -- intros tok ts Hk (n & colon & tyts & defts & -> & Hkn & Htn & Hkc & HDt & HDd).
+             exists tok, n, colon, tyts, defts. auto 10.
+        * apply (dirs_lexp cf Hind true _ Hdirs pre Hpre).
+  Qed.
+
+  Lemma vardefs_lexp vds : Forall wf_vardef vds ->
+    LexP (pr_var_defs cf vds) (fun ts => D_variable_definitions true ts (map strip_var_def vds)).
+  Proof.
+    intros HF pre Hpre. unfold pr_var_defs.
+    destruct vds as [|v0 vds0] eqn:Ea.
+    - simpl. apply lexok_nil. constructor.
+    - rewrite <- Ea in *. assert (Hne : vds <> []) by (rewrite Ea; discriminate). clear Ea v0 vds0.
+      assert (HA : Forall (fun v => pr_var_def cf v <> [] /\
+                     LexP (pr_var_def cf v) (fun ts => D_variable_definition true ts (strip_var_def v))) vds).
+      { apply Forall_forall. intros v Hv. apply vardef_lexp. rewrite Forall_forall in HF. auto. }
+      rewrite p_join_nonempty.
+      2: { intros x Hx. apply in_map_iff in Hx. destruct Hx as (a & <- & Ha).
+           rewrite Forall_forall in HA. apply (HA a Ha). }
+      rewrite p_wrap_nonempty.
+      2: { apply join_ne_nonempty; [|destruct vds; [contradiction|discriminate]].
+           intros x Hx. apply in_map_iff in Hx. destruct Hx as (a & <- & Ha).
+           rewrite Forall_forall in HA. apply (HA a Ha). }
+      change (lit "(") with [40]. change (lit ")") with [41].
+      rewrite !reindent_app. change (reindent pre [40]) with [40]. change (reindent pre [41]) with [41].
+      rewrite reindent_join_ne by (intros x [<-|[<-|[]]]; discriminate). rewrite map_map.
+      apply (lex_bracketed 40 41 KParenO KParenC _ _
+               (fun ts => D_list (D_variable_definition true) ts (map strip_var_def vds)));
+        try reflexivity; try discriminate.
+      + intros rest pos Hr.
+        apply (lex_joined (fun a => reindent pre (pr_var_def cf a))
+                          (fun a ts => D_variable_definition true ts (strip_var_def a))
+                          (fun l ts => D_list (D_variable_definition true) ts (map strip_var_def l))).
+        * constructor.
+        * intros x xs ts ts' Hx Hxs. cbn [map]. constructor; assumption.
+        * apply Forall_forall. intros a Ha. rewrite Forall_forall in HA. apply (HA a Ha). assumption.
+        * assumption.
+      + intros to tc ts Ho Hc HD. apply (DVds_some true to ts tc _ Ho Hc HD).
+        destruct vds; [contradiction|discriminate].
+  Qed.
+
+  Lemma vardefs_head_ok vds rest : vrest_ok rest -> vrest_ok (pr_var_defs cf vds ++ rest).
+  Proof.
+    intros Hr. unfold pr_var_defs, p_wrap.
+    destruct (is_empty _); [assumption|]. apply vrest_sym. left. discriminate.
+  Qed.
+End VarDefs.
+
+(* ------------------------------------------------------------------ definitions and documents *)
+Lemma last_app_ne {A} (a b : list A) d : b <> [] -> last (a ++ b) d = last b d.
+Proof.
+  intros Hb. induction a as [|x a IH]; [reflexivity|]. simpl.
+  destruct (a ++ b) eqn:E; [apply app_eq_nil in E; destruct E; contradiction|]. exact IH.
+Qed.
+
+Lemma p_join_snoc_nonempty l s sep : s <> [] -> p_join (l ++ [s]) sep <> [].
+Proof.
+  intros Hs. induction l as [|t l IH]; simpl app; rewrite p_join_cons.
+  - destruct s; [contradiction|]. simpl. discriminate.
+  - destruct (is_empty t) eqn:Et; [assumption|].
+    destruct (is_empty (p_join (l ++ [s]) sep)); [destruct t; discriminate|].
+    destruct t; [discriminate|discriminate].
+Qed.
+
+Lemma p_join_last_part l s sep d : s <> [] -> last (p_join (l ++ [s]) sep) d = last s d.
+Proof.
+  intros Hs. induction l as [|t l IH]; simpl app; rewrite p_join_cons.
+  - destruct s; [contradiction|]. simpl is_empty. cbn [p_join filter join_ne]. reflexivity.
+  - destruct (is_empty t); [assumption|].
+    pose proof (p_join_snoc_nonempty l s sep Hs) as Hne.
+    destruct (is_empty (p_join (l ++ [s]) sep)) eqn:E; [destruct (p_join (l ++ [s]) sep); [contradiction|discriminate]|].
+    rewrite app_assoc, last_app_ne by assumption. assumption.
+Qed.
+
+Lemma selset_last cf sub d : sub <> [] -> last (pr_selection_set cf sub) d = 125.
+Proof.
+  intros Hne. unfold pr_selection_set, p_block.
+  destruct (map (pr_selection cf) sub) eqn:E; [destruct sub; [contradiction|discriminate]|].
+  rewrite !app_assoc. change (lit "}") with [125]. apply last_last.
+Qed.
+
+Lemma selset_nonempty cf sub : sub <> [] -> pr_selection_set cf sub <> [].
+Proof.
+  intros Hne. unfold pr_selection_set, p_block.
+  destruct (map (pr_selection cf) sub) eqn:E; [destruct sub; [contradiction|discriminate]|]. discriminate.
+Qed.
+
+Lemma dirs_text_empty cf ds : pr_directives cf ds = [] -> ds = [].
+Proof.
+  destruct ds as [|d ds]; [reflexivity|]. unfold pr_directives. cbn [map]. rewrite p_join_cons.
+  assert (E : is_empty (pr_directive cf d) = false) by reflexivity. rewrite E.
+  destruct (pr_directive cf d) as [|c0 l0]; [discriminate E|].
+  destruct (is_empty (p_join (map (pr_directive cf) ds) (lit " "))); intros H; simpl in H; discriminate H.
+Qed.
+
+Section Defs.
+  Variable cf : cfg.
+  Hypothesis Hind : all_ws (c_indent cf).
+  Variable fv : bool.
+
+  Definition wf_def (d : definition) : Prop :=
+    match d with
+    | DOperation k n vds dirs _ sels _ =>
+        match n with Some x => valid_name (n_val x) | None => True end
+        /\ Forall wf_vardef vds /\ Forall (wf_dir false) dirs /\ sels <> [] /\ Forall wf_sel sels
+    | DFragment n vds tc dirs _ sels _ =>
+        valid_name (n_val n) /\ n_val n <> str_of_string "on"
+        /\ (if fv then Forall wf_vardef vds else vds = [])
+        /\ (exists tn l, tc = TNamed tn l /\ valid_name (n_val tn))
+        /\ Forall (wf_dir false) dirs /\ sels <> [] /\ Forall wf_sel sels
+    | _ => False
+    end.
+
+  Lemma selset_DSS sels : sels <> [] -> Forall wf_sel sels ->
+    LexP (pr_selection_set cf sels) (fun ts => D_selection_set true ts (map strip_sel sels) None).
+  Proof.
+    intros Hne Hwf pre Hpre.
+    apply (lexok_weaken _ (fun ts => exists o body cl, ts = o :: body ++ [cl] /\ tk o = KCurlyO
+                       /\ tk cl = KCurlyC /\ D_selections true body (map strip_sel sels))).
+    - intros ts (o & body & cl & -> & Ho & Hc & HD).
+      apply (DSS true o body cl _ Ho Hc HD). destruct sels; [contradiction|discriminate].
+    - apply selset_lexp; try assumption. apply Forall_forall. intros s _. apply PS_all. assumption.
+  Qed.
+
+  Lemma selset_head_ok pre sels rest : sels <> [] -> vrest_ok (reindent pre (pr_selection_set cf sels) ++ rest).
+  Proof.
+    intros Hne. unfold pr_selection_set, p_block.
+    destruct (map (pr_selection cf) sels) eqn:E; [destruct sels; [contradiction|discriminate]|].
+    change (lit "{") with [123]. rewrite reindent_app. apply vrest_sym. left. discriminate.
+  Qed.
+
+  Lemma word_lexok w (P : list ptok -> Prop) :
+    valid_name (str_of_string w) -> (forall t, is_word w t -> P [t]) -> LexOK (str_of_string w) P.
+  Proof. intros Hv HP. apply name_lexok; [assumption|]. intros t Hk Ht. apply HP. split; assumption. Qed.
+
+  Lemma op_word_lexok k : LexOK (op_text k) (fun ts => exists t, ts = [t] /\ D_operation_type t k).
+  Proof.
+    destruct k; unfold op_text, lit.
+    - apply word_lexok; [exists 113, (lit "uery"); repeat split; repeat constructor|].
+      intros t Hw. exists t. split; [reflexivity|constructor; assumption].
+    - apply word_lexok; [exists 109, (lit "utation"); repeat split; repeat constructor|].
+      intros t Hw. exists t. split; [reflexivity|constructor; assumption].
+    - apply word_lexok; [exists 115, (lit "ubscription"); repeat split; repeat constructor|].
+      intros t Hw. exists t. split; [reflexivity|constructor; assumption].
+  Qed.
+
+  Lemma op_text_no_lf k : no_lf (op_text k).
+  Proof. destruct k; intros x Hx; simpl in Hx; repeat destruct Hx as [<-|Hx]; try discriminate; contradiction. Qed.
+
+  Lemma operation_lexp k n vds dirs ssl sels l :
+    wf_def (DOperation k n vds dirs ssl sels l) ->
+    LexP (pr_definition cf (DOperation k n vds dirs ssl sels l))
+         (fun ts => D_operation true ts (strip_def (DOperation k n vds dirs ssl sels l))).
+  Proof.
+    intros (Hn & Hvds & Hdirs & Hne & Hsels) pre Hpre. cbn [pr_definition strip_def].
+    set (name := match n with Some x => n_val x | None => [] end).
+    destruct (is_empty name && is_empty (pr_directives cf dirs) && is_empty (pr_var_defs cf vds)
+              && is_query k) eqn:Eshort.
+    - (* shorthand *)
+      apply andb_prop in Eshort. destruct Eshort as [E Ek]. apply andb_prop in E. destruct E as [E Ev].
+      apply andb_prop in E. destruct E as [En Ed].
+      assert (n = None).
+      { destruct n as [x|]; [|reflexivity]. unfold name in En. pose proof (valid_name_ne _ Hn).
+        destruct (n_val x); [contradiction|discriminate]. }
+      assert (dirs = []) by (apply (dirs_text_empty cf); destruct (pr_directives cf dirs); [reflexivity|discriminate]).
+      assert (vds = []).
+      { destruct vds as [|v vds0]; [reflexivity|]. exfalso.
+        destruct (vardef_lexp cf Hind v) as [Hv _]; [inversion Hvds; assumption|].
+        unfold pr_var_defs in Ev. cbn [map] in Ev. rewrite p_join_cons in Ev.
+        destruct (pr_var_def cf v) eqn:Ep; [contradiction|]. cbn [is_empty] in Ev.
+        unfold p_wrap in Ev. destruct (is_empty (p_join _ _)) eqn:E2 in Ev.
+        - destruct (is_empty (p_join (map (pr_var_def cf) vds0) (lit ", "))); discriminate.
+        - discriminate. }
+      assert (k = OpQuery) by (destruct k; [reflexivity|discriminate|discriminate]).
+      subst. cbn [option_map map].
+      apply (lexok_weaken _ (fun ts => D_selection_set true ts (map strip_sel sels) None)).
+      + intros ts HD. apply (DOp_short true ts _ _ HD).
+      + apply selset_DSS; assumption.
+    - (* long form *)
+      rewrite reindent_p_join. cbn [map]. change (reindent pre (lit " ")) with (lit " ").
+      rewrite (reindent_id pre _ (op_text_no_lf k)).
+      set (Nt := reindent pre (p_join [name; pr_var_defs cf vds] [])).
+      set (Dt := reindent pre (pr_directives cf dirs)).
+      set (St := reindent pre (pr_selection_set cf sels)).
+      set (Q2 := fun ts => exists nts vdts, ts = nts ++ vdts /\ D_opt_name true nts (option_map strip_name n)
+                   /\ D_variable_definitions true vdts (map strip_var_def vds)).
+      apply (lexok_weaken _ (PartsP [(op_text k, fun ts => exists t, ts = [t] /\ D_operation_type t k);
+                                     (Nt, Q2);
+                                     (Dt, fun ts => D_directives true false ts (map strip_dir dirs));
+                                     (St, fun ts => D_selection_set true ts (map strip_sel sels) None)])).
+      + intros ts H. inversion H as [|? ? ts1 ? tss1 H1 Hr1]; subst.
+        inversion Hr1 as [|? ? ts2 ? tss2 H2 Hr2]; subst.
+        inversion Hr2 as [|? ? ts3 ? tss3 H3 Hr3]; subst.
+        inversion Hr3 as [|? ? ts4 ? tss4 H4 Hr4]; subst. inversion Hr4; subst.
+        destruct H1 as (t & -> & Hot). destruct H2 as (nts & vdts & -> & HDn & HDv).
+        pose proof (DOp_full true t k nts _ vdts _ ts3 _ ts4 _ _ Hot HDn HDv H3 H4) as D.
+        rewrite app_nil_r. cbn [app]. rewrite <- app_assoc. exact D.
+      + change [op_text k; Nt; Dt; St]
+          with (map fst [(op_text k, fun ts : list ptok => exists t, ts = [t] /\ D_operation_type t k);
+                         (Nt, Q2);
+                         (Dt, fun ts => D_directives true false ts (map strip_dir dirs));
+                         (St, fun ts => D_selection_set true ts (map strip_sel sels) None)]).
+        apply lex_pjoin; [apply ignorable_space|discriminate|]. repeat constructor; cbn [fst snd].
+        * apply op_word_lexok.
+        * unfold Nt, Q2. rewrite p_join_nil_sep. cbn [concat]. rewrite app_nil_r, reindent_app.
+          apply (lexok_app _ _ (fun ts => D_opt_name true ts (option_map strip_name n))
+                           (fun ts => D_variable_definitions true ts (map strip_var_def vds))).
+          -- unfold name. destruct n as [x|].
+             ++ rewrite (reindent_id pre _ (name_no_lf _ Hn)). apply name_lexok; [assumption|].
+                intros t Hk Ht. pose proof (DOn_some true t Hk) as D. unfold name_node in D.
+                rewrite Ht in D. exact D.
+             ++ simpl. apply lexok_nil. constructor.
+          -- apply (vardefs_lexp cf Hind vds Hvds pre Hpre).
+          -- intros rest Hr. apply reindent_head_ok; [apply vardefs_head_ok|assumption].
+          -- intros ts1 ts2 H1 H2. exists ts1, ts2. auto.
+        * apply (dirs_lexp cf Hind false dirs Hdirs pre Hpre).
+        * apply selset_DSS; assumption.
+  Qed.
+
+  Lemma valid_name_fragment : valid_name (str_of_string "fragment").
+  Proof. exists 102, (lit "ragment"). repeat split; repeat constructor. Qed.
+
+  Lemma fragment_lexp n vds tc dirs ssl sels l :
+    wf_def (DFragment n vds tc dirs ssl sels l) ->
+    LexP (pr_definition cf (DFragment n vds tc dirs ssl sels l))
+         (fun ts => D_fragment true fv ts (strip_def (DFragment n vds tc dirs ssl sels l))).
+  Proof.
+    intros (Hn & Hon & Hvds & (tn & ltn & -> & Htn) & Hdirs & Hne & Hsels) pre Hpre.
+    cbn [pr_definition strip_def pr_type strip_ty].
+    assert (Hvds' : Forall wf_vardef vds) by (destruct fv; [assumption|subst; constructor]).
+    change (lit "fragment ") with (str_of_string "fragment" ++ lit " ").
+    change (lit " on ") with (lit " " ++ lit "on" ++ lit " ").
+    rewrite <- !app_assoc. rewrite !reindent_app.
+    rewrite (reindent_id pre (str_of_string "fragment")) by (apply name_no_lf; apply valid_name_fragment).
+    change (reindent pre (lit " ")) with (lit " "). change (reindent pre (lit "on")) with (lit "on").
+    rewrite (reindent_id pre _ (name_no_lf _ Hn)), (reindent_id pre _ (name_no_lf _ Htn)).
+    set (Vt := reindent pre (pr_var_defs cf vds)).
+    set (Dt := reindent pre (pr_directives cf dirs)).
+    set (St := reindent pre (pr_selection_set cf sels)).
+    (* fragment <sp> name vardefs <sp> on <sp> tname <sp> dirs selset *)
+    pose proof (selset_DSS sels Hne Hsels pre Hpre) as HS. fold St in HS.
+    pose proof (dirs_lexp cf Hind false dirs Hdirs pre Hpre) as HD. fold Dt in HD.
+    pose proof (vardefs_lexp cf Hind vds Hvds' pre Hpre) as HV. fold Vt in HV.
+    assert (HSv : forall rest, vrest_ok (St ++ rest)) by (intros; apply selset_head_ok; assumption).
+    (* tail: dirs selset *)
+    assert (T1 : LexOK (Dt ++ St) (fun ts => exists dts ssts, ts = dts ++ ssts
+                 /\ D_directives true false dts (map strip_dir dirs)
+                 /\ D_selection_set true ssts (map strip_sel sels) None)).
+    { apply (lexok_app Dt St _ _ _ HD HS); [intros; apply HSv|]. intros ts1 ts2 H1 H2. exists ts1, ts2. auto. }
+    (* tname <sp> tail *)
+    assert (T2 : LexOK (n_val tn ++ lit " " ++ Dt ++ St) (fun ts => exists tcn dts ssts, ts = tcn :: dts ++ ssts
+                 /\ tk tcn = KName /\ tval tcn = n_val tn
+                 /\ D_directives true false dts (map strip_dir dirs)
+                 /\ D_selection_set true ssts (map strip_sel sels) None)).
+    { apply (lexok_weaken _ (fun ts => exists t xs, ts = t :: xs /\ tk t = KName /\ tval t = n_val tn /\
+                (exists dts ssts, xs = dts ++ ssts /\ D_directives true false dts (map strip_dir dirs)
+                   /\ D_selection_set true ssts (map strip_sel sels) None))).
+      - intros ts (t & xs & -> & Hk & Ht & dts & ssts & -> & H1 & H2). exists t, dts, ssts. auto 10.
+      - apply name_then; [assumption| |].
+        + apply lexok_lead; [apply ignorable_space|exact T1].
+        + intros rest _. apply vrest_sym. auto. }
+    (* on <sp> ... *)
+    assert (T3 : LexOK (lit "on" ++ lit " " ++ n_val tn ++ lit " " ++ Dt ++ St)
+               (fun ts => exists o tcn dts ssts, ts = o :: tcn :: dts ++ ssts /\ is_word "on" o
+                 /\ tk tcn = KName /\ tval tcn = n_val tn
+                 /\ D_directives true false dts (map strip_dir dirs)
+                 /\ D_selection_set true ssts (map strip_sel sels) None)).
+    { apply (lexok_weaken _ (fun ts => exists t xs, ts = t :: xs /\ tk t = KName /\ tval t = lit "on" /\
+                (exists tcn dts ssts, xs = tcn :: dts ++ ssts /\ tk tcn = KName /\ tval tcn = n_val tn
+                   /\ D_directives true false dts (map strip_dir dirs)
+                   /\ D_selection_set true ssts (map strip_sel sels) None))).
+      - intros ts (t & xs & -> & Hk & Ht & tcn & dts & ssts & -> & H1 & H2 & H3 & H4).
+        exists t, tcn, dts, ssts. unfold is_word. intuition auto.
+      - apply name_then; [apply valid_name_on| |].
+        + apply lexok_lead; [apply ignorable_space|exact T2].
+        + intros rest _. apply vrest_sym. auto. }
+    (* name vardefs <sp> on ... *)
+    assert (T4 : LexOK (n_val n ++ Vt ++ lit " " ++ lit "on" ++ lit " " ++ n_val tn ++ lit " " ++ Dt ++ St)
+               (fun ts => exists nt vdts o tcn dts ssts, ts = nt :: vdts ++ o :: tcn :: dts ++ ssts
+                 /\ tk nt = KName /\ tval nt = n_val n
+                 /\ D_variable_definitions true vdts (map strip_var_def vds)
+                 /\ is_word "on" o /\ tk tcn = KName /\ tval tcn = n_val tn
+                 /\ D_directives true false dts (map strip_dir dirs)
+                 /\ D_selection_set true ssts (map strip_sel sels) None)).
+    { apply (lexok_weaken _ (fun ts => exists t xs, ts = t :: xs /\ tk t = KName /\ tval t = n_val n /\
+                (exists vdts o tcn dts ssts, xs = vdts ++ o :: tcn :: dts ++ ssts
+                   /\ D_variable_definitions true vdts (map strip_var_def vds)
+                   /\ is_word "on" o /\ tk tcn = KName /\ tval tcn = n_val tn
+                   /\ D_directives true false dts (map strip_dir dirs)
+                   /\ D_selection_set true ssts (map strip_sel sels) None))).
+      - intros ts (t & xs & -> & Hk & Ht & vdts & o & tcn & dts & ssts & -> & H1 & H2 & H3 & H4 & H5 & H6).
+        exists t, vdts, o, tcn, dts, ssts. intuition auto.
+      - apply name_then; [assumption| |].
+        + eapply (lexok_app Vt _ _ _ _ HV).
+          * apply lexok_lead; [apply ignorable_space|exact T3].
+          * intros rest _. apply vrest_sym. auto.
+          * intros ts1 ts2 H1 (o & tcn & dts & ssts & -> & H2). exists ts1, o, tcn, dts, ssts. tauto.
+        + intros rest Hr. unfold Vt. rewrite <- app_assoc. apply reindent_head_ok; [apply vardefs_head_ok|].
+          apply vrest_sym. auto. }
+    apply (lexok_weaken _ (fun ts => exists t xs, ts = t :: xs /\ tk t = KName /\ tval t = str_of_string "fragment" /\
+              (exists nt vdts o tcn dts ssts, xs = nt :: vdts ++ o :: tcn :: dts ++ ssts
+                 /\ tk nt = KName /\ tval nt = n_val n
+                 /\ D_variable_definitions true vdts (map strip_var_def vds)
+                 /\ is_word "on" o /\ tk tcn = KName /\ tval tcn = n_val tn
+                 /\ D_directives true false dts (map strip_dir dirs)
+                 /\ D_selection_set true ssts (map strip_sel sels) None))).
+    - intros ts (f & xs & -> & Hkf & Htf & nt & vdts & o & tcn & dts & ssts & -> & Hkn & Htnn & HDv & Ho & Hkt & Htt & HDd & HDs).
+      pose proof (DFrag true fv f nt vdts (map strip_var_def vds) o tcn dts (map strip_dir dirs) ssts
+                    (map strip_sel sels) None (conj Hkf Htf) Hkn) as D.
+      unfold name_node in D. rewrite Htnn, Htt in D. apply D; auto.
+      destruct fv; [assumption|]. subst vds. inversion HDv; subst; [auto|].
+      exfalso. match goal with H : [] <> [] |- _ => apply H; reflexivity | H : map _ [] <> [] |- _ => apply H; reflexivity end.
+    - apply name_then; [apply valid_name_fragment| |].
+      + apply lexok_lead; [apply ignorable_space|exact T4].
+      + intros rest _. apply vrest_sym. auto.
+  Qed.
+
+  Lemma def_lexp d : wf_def d ->
+    LexP (pr_definition cf d) (fun ts => D_executable_definition true fv ts (strip_def d)).
+  Proof.
+    intros Hwf pre Hpre. destruct d; try contradiction.
+    - apply (lexok_weaken _ (fun ts => D_operation true ts (strip_def (DOperation k n vds dirs ssl sels l)))).
+      + intros ts H. apply DEx_operation. assumption.
+      + apply operation_lexp; assumption.
+    - apply (lexok_weaken _ (fun ts => D_fragment true fv ts (strip_def (DFragment n vds tc dirs ssl sels l)))).
+      + intros ts H. apply DEx_fragment. assumption.
+      + apply fragment_lexp; assumption.
+  Qed.
+
+  (* exec definitions end with the closing brace of their selection set *)
+  Lemma def_ends_brace d : wf_def d -> last (pr_definition cf d) 0 = 125 /\ pr_definition cf d <> [].
+  Proof.
+    intros Hwf. destruct d; try contradiction.
+    - destruct Hwf as (_ & _ & _ & Hne & _). cbn [pr_definition].
+      pose proof (selset_last cf sels 0 Hne) as HL. pose proof (selset_nonempty cf sels Hne) as HN.
+      destruct (_ && _ && _ && _); [auto|].
+      change [op_text k; p_join [match n with Some x => n_val x | None => [] end; pr_var_defs cf vds] [];
+              pr_directives cf dirs; pr_selection_set cf sels]
+        with ([op_text k; p_join [match n with Some x => n_val x | None => [] end; pr_var_defs cf vds] [];
+               pr_directives cf dirs] ++ [pr_selection_set cf sels]).
+      split; [rewrite p_join_last_part by assumption; assumption|apply p_join_snoc_nonempty; assumption].
+    - destruct Hwf as (_ & _ & _ & _ & _ & Hne & _). cbn [pr_definition].
+      pose proof (selset_last cf sels 0 Hne) as HL. pose proof (selset_nonempty cf sels Hne) as HN.
+      rewrite !app_assoc. split; [rewrite last_app_ne by assumption; assumption|].
+      intros H. apply app_eq_nil in H. destruct H; contradiction.
+  Qed.
+
+  Lemma pr_defs_plain ds : Forall wf_def ds ->
+    forall prev, match prev with Some p => ends_brace p = true | None => True end ->
+    pr_defs cf prev ds = map (pr_definition cf) ds.
+  Proof.
+    induction ds as [|d ds IH]; intros HF prev Hp; [reflexivity|].
+    inversion HF as [|? ? Hd Hds]; subst. cbn [pr_defs map]. cbv zeta.
+    assert (E : (starts_brace (pr_definition cf d)
+                 && match prev with Some p => negb (ends_brace p) | None => false end) = false).
+    { destruct prev as [p|]; [rewrite Hp|]; apply andb_false_r. }
+    rewrite E. f_equal. apply IH; [assumption|].
+    destruct (def_ends_brace d Hd) as [HL _]. unfold ends_brace. rewrite HL. reflexivity.
+  Qed.
+
+End Defs.
+
+Definition wf_exec_doc (fv : bool) (d : document) : Prop :=
+  doc_defs d <> [] /\ Forall (wf_def fv) (doc_defs d).
+
+Theorem exec_roundtrip fl ind d :
+  no_location fl = true -> all_ws ind -> wf_exec_doc (fragment_variables fl) d ->
+  parse_document fl (print_ast ind true d) = Ok (strip_doc d).
+Proof.
+  intros Hnl Hind [Hne Hwf]. set (cf := Cfg ind true). set (fv := fragment_variables fl) in *.
+  assert (Hind' : all_ws (c_indent cf)) by exact Hind.
+  unfold print_ast, pr_document. fold cf.
+  rewrite (pr_defs_plain cf fv (doc_defs d) Hwf None I).
+  assert (HL : LexOK (p_join (map (pr_definition cf) (doc_defs d)) [PrinterModel.LF; PrinterModel.LF]
+                      ++ [PrinterModel.LF])
+                     (fun ts => D_list (D_executable_definition true fv) ts (map strip_def (doc_defs d)))).
+  { apply lexok_trail; [repeat constructor|].
+    apply (lex_pjoin_list [10; 10] (pr_definition cf)
+             (fun x ts => D_executable_definition true fv ts (strip_def x))).
+    - repeat constructor.
+    - discriminate.
+    - auto.
+    - apply Forall_forall. intros x Hx. rewrite Forall_forall in Hwf.
+      pose proof (def_lexp cf Hind' fv x (Hwf x Hx) [] eq_refl) as H. rewrite reindent_nil in H. exact H. }
+  destruct (HL [] 0%nat I) as (ts & pos' & HD & Hlen & Hlex).
+  set (text := p_join (map (pr_definition cf) (doc_defs d)) [PrinterModel.LF; PrinterModel.LF]
+               ++ [PrinterModel.LF]) in *.
+  set (eof := PTok KEOF [] pos' pos').
+  apply (parse_document_exec_complete fl text (PTok KSOF [] 0 0 :: ts ++ [eof])).
+  - unfold lex, lex_stream, lex_fuel. cbn [collect].
+    replace (S (length text)) with (length ts + S (length text - length ts))%nat by lia.
+    rewrite <- (app_nil_r text) at 2. rewrite Hlex.
+    cbn [lex_from skip_ws next_token]. unfold is_kind. simpl tkind_eqb.
+    rewrite collect_map. simpl. reflexivity.
+  - rewrite Hnl. fold fv. unfold strip_doc.
+    apply (DDoc true fv (PTok KSOF [] 0 0) ts eof _ eq_refl eq_refl HD).
+    destruct (doc_defs d); [contradiction|discriminate].
+Qed.
